@@ -60,11 +60,15 @@ KILL_FILTERS = {
 
 
 def run_program(prog, prefix=(), kinds=("P", "T", "K"), kill_code=-9, track_states=True,
-                monitors=(), horizon=50_000, kill_when=None, starve=None):
+                monitors=(), horizon=50_000, kill_when=None, starve=None, p_scope=None,
+                t_scope=None, t_when=None, p_when=None, t_cur=None,
+                zero_when=None):
     pool = prog.get("pool", {})
     S = K.Sched(prefix, kinds=kinds, kill_code=kill_code, horizon=horizon,
                 pipe_cap=pool.get("pipe_cap", 65536), track_states=track_states,
-                kill_filter=KILL_FILTERS[kill_when], starve=starve)
+                kill_filter=KILL_FILTERS[kill_when], starve=starve, p_scope=p_scope,
+                t_scope=t_scope, t_when=t_when, p_when=p_when, t_cur=t_cur,
+                zero_when=zero_when)
     K.S = S
     tasks.reset()
     gc_was = gc.isenabled()
@@ -74,6 +78,7 @@ def run_program(prog, prefix=(), kinds=("P", "T", "K"), kill_code=-9, track_stat
     if pool.get("parent_depth"):
         w.pe._CURRENT_DEPTH = pool["parent_depth"]
     rec = Record()
+    rec.policy = dict(starve=starve, zero_when=zero_when)
     rec.prog = prog
     rec.futures = {}
     rec.ops = []
@@ -197,6 +202,7 @@ def do_op(ctx, op, entry):
             if h["ref"]() is e:
                 h["max_seen"] = e._max_workers
         entry["pids_after"] = e._processes.raw_keys()
+        entry["stale_sentinels"] = _sentinels(e)
         entry["alive_workers"] = sorted(p.pid for p in S.procs.values()
                                         if p.label.startswith("worker") and p.alive)
         entry["unreaped"] = sorted(p.label for p in S.procs.values()
@@ -255,6 +261,19 @@ def do_op(ctx, op, entry):
                 def cb(fut):
                     rec.notes.append(("callback", op[1]))
                     raise RuntimeError("callback raises")
+            elif op[2] == "resubmit":
+                def cb(fut):
+                    rec.notes.append(("callback", op[1]))
+                    e2 = ctx["e"]
+                    nk = "cb_" + op[1]
+                    try:
+                        rec.futures[nk] = e2.submit(tasks.ok, nk, 1)
+                        rec.values[nk] = ("ok", 1)
+                        rec.notes.append(("resubmitted", nk))
+                    except (SimAbort, SimKilled):
+                        raise
+                    except BaseException as ex:
+                        rec.notes.append(("resubmit-raised", type(ex).__name__))
             elif op[2] == "slow":
                 def cb(fut):
                     shims.sim_sleep(op[3])
@@ -281,13 +300,19 @@ def do_op(ctx, op, entry):
             if r:
                 rec.cancelled_true.add(op[1])
     elif name == "wait_all":
-        for key, f in list(rec.futures.items()):
-            try:
-                f.result()
-            except (SimAbort, SimKilled):
-                raise
-            except BaseException:
-                pass
+        seen = set()
+        while True:      # done-callbacks may add futures while we wait
+            todo = [(k, f) for k, f in list(rec.futures.items()) if k not in seen]
+            if not todo:
+                break
+            for key, f in todo:
+                seen.add(key)
+                try:
+                    f.result()
+                except (SimAbort, SimKilled):
+                    raise
+                except BaseException:
+                    pass
     elif name == "shutdown":
         e = ctx["e"]
         if e is not None:
@@ -377,6 +402,27 @@ def do_op(ctx, op, entry):
         return "EXIT"
     else:
         raise ValueError(f"unknown op {op}")
+
+
+def _sentinels(e):
+    """None sentinels sitting in the call queue (feeder buffer + pipe) of an executor."""
+    import pickle
+    q = e._call_queue
+    if q is None:
+        return 0
+    n = sum(1 for x in list(q._buffer) if x is None)
+    try:
+        pipe = q._reader._pipe()
+        for m in pipe.msgs:
+            if m[2] >= m[1]:
+                try:
+                    if pickle.loads(m[0]) is None:
+                        n += 1
+                except Exception:
+                    pass
+    except Exception:
+        pass
+    return n
 
 
 def _inside_total(S):
